@@ -763,6 +763,10 @@ func (opts *rootOpts) processRef(ctx context.Context, s ConfigSync, src, tgt ref
 	default:
 	}
 
+	// a target that holds the whole manifest list is overwritten when the copy is narrowed to one platform
+	if tgtMatches && mSrc.IsList() && s.Platform != "" && src.Digest != manifest.GetDigest(mTgt).String() {
+		tgtMatches = false
+	}
 	// run backup
 	if tgtExists && !tgtMatches && s.Backup != "" {
 		// expand template
